@@ -70,6 +70,21 @@ pub struct Run {
     machinery_errors: Mutex<Vec<String>>,
     pub rule: Mutex<String>,
     pub exhaustive: Mutex<bool>,
+    slots: Mutex<Vec<std::sync::Arc<Slot>>>,
+}
+
+/// The case a worker thread is currently executing (for the hang watchdog).
+pub struct Slot {
+    case: Mutex<Option<Value>>,
+    tag: Mutex<&'static str>,
+    a: AtomicU64,
+    b: AtomicU64,
+    /// Milliseconds since the run started at which the current case was entered; 0 = idle.
+    since_ms: AtomicU64,
+}
+
+thread_local! {
+    static MY_SLOT: RefCell<Option<std::sync::Arc<Slot>>> = const { RefCell::new(None) };
 }
 
 impl Run {
@@ -93,7 +108,90 @@ impl Run {
             machinery_errors: Mutex::new(Vec::new()),
             rule: Mutex::new(String::new()),
             exhaustive: Mutex::new(true),
+            slots: Mutex::new(Vec::new()),
         }
+    }
+
+    fn my_slot(&self) -> std::sync::Arc<Slot> {
+        MY_SLOT.with(|s| {
+            let mut s = s.borrow_mut();
+            if s.is_none() {
+                let slot = std::sync::Arc::new(Slot {
+                    case: Mutex::new(None),
+                    tag: Mutex::new(""),
+                    a: AtomicU64::new(0),
+                    b: AtomicU64::new(0),
+                    since_ms: AtomicU64::new(0),
+                });
+                self.slots.lock().unwrap().push(slot.clone());
+                *s = Some(slot);
+            }
+            s.as_ref().unwrap().clone()
+        })
+    }
+
+    fn now_ms(&self) -> u64 {
+        self.start.elapsed().as_millis() as u64 + 1
+    }
+
+    /// Declares the case this thread is about to execute. If the thread is still on it after
+    /// the watchdog's limit, the case is reported as a hang of the code under test.
+    pub fn watch(&self, case: &Value) {
+        let slot = self.my_slot();
+        *slot.case.lock().unwrap() = Some(case.clone());
+        slot.since_ms.store(self.now_ms(), Ordering::Relaxed);
+    }
+
+    /// Cheap variant for very large sweeps: the case is `{"kind": tag, "n": a, "code": b}`.
+    pub fn watch_num(&self, tag: &'static str, a: u64, b: u64) {
+        let slot = self.my_slot();
+        if slot.case.lock().unwrap().is_some() {
+            *slot.case.lock().unwrap() = None;
+        }
+        *slot.tag.lock().unwrap() = tag;
+        slot.a.store(a, Ordering::Relaxed);
+        slot.b.store(b, Ordering::Relaxed);
+        slot.since_ms.store(self.now_ms(), Ordering::Relaxed);
+    }
+
+    /// The thread is between cases.
+    pub fn idle(&self) {
+        let slot = self.my_slot();
+        slot.since_ms.store(0, Ordering::Relaxed);
+    }
+
+    /// Starts the hang watchdog: a case that runs longer than `limit_secs` is recorded as a
+    /// violation (`hang@...`), results are written and the process exits (threads cannot be
+    /// cancelled).
+    pub fn start_watchdog(&'static self, limit_secs: u64) {
+        std::thread::spawn(move || loop {
+            std::thread::sleep(std::time::Duration::from_millis(250));
+            let now = self.now_ms();
+            let slots: Vec<std::sync::Arc<Slot>> = self.slots.lock().unwrap().clone();
+            for slot in slots {
+                // `slots` holds one clone, the registry another; a third belongs to a live thread.
+                if std::sync::Arc::strong_count(&slot) < 3 {
+                    continue;
+                }
+                let since = slot.since_ms.load(Ordering::Relaxed);
+                if since != 0 && now > since + limit_secs * 1000 {
+                    let case = slot.case.lock().unwrap().clone().unwrap_or_else(|| {
+                        json!({"kind": *slot.tag.lock().unwrap(), "n": slot.a.load(Ordering::Relaxed), "code": slot.b.load(Ordering::Relaxed)})
+                    });
+                    let kind = case["kind"].as_str().unwrap_or("case").to_string();
+                    self.violation(Violation {
+                        signature: format!("hang/{kind}"),
+                        what: format!("the code under test did not return within {limit_secs} s on this case"),
+                        case,
+                        expected: "termination".into(),
+                        observed: format!("still running after {limit_secs} s; check stopped here"),
+                    });
+                    self.cap("stopped at a hang of the code under test; remaining cases not explored");
+                    let code = self.finish();
+                    std::process::exit(code);
+                }
+            }
+        });
     }
 
     pub fn eval(&self, n: u64) {
@@ -184,14 +282,14 @@ impl Run {
 
     /// Writes evidence and replay files, prints KNOWN-FINDING / VIOLATION lines, returns the
     /// process exit code: 0 held (modulo listed findings), 1 new violation, 2 machinery failure.
-    pub fn finish(self) -> i32 {
+    pub fn finish(&self) -> i32 {
         let known = load_known(&self.property);
-        let groups = self.groups.into_inner().unwrap();
+        let groups = self.groups.lock().unwrap();
         let mut new_violations = 0u64;
         let mut known_seen = Vec::new();
         let mut total = 0u64;
         let replay_dir = PathBuf::from(VERIF_DIR).join("replays").join(&self.property);
-        for (signature, group) in &groups {
+        for (signature, group) in groups.iter() {
             total += group.count;
             let replay = json!({
                 "property": self.property,
@@ -233,8 +331,8 @@ impl Run {
         }
         let evaluations = self.evaluations.load(Ordering::Relaxed);
         let nontrivial = self.nontrivial.load(Ordering::Relaxed);
-        let outcomes = self.outcomes.into_inner().unwrap();
-        let mut machinery = self.machinery_errors.into_inner().unwrap();
+        let outcomes = self.outcomes.lock().unwrap().clone();
+        let mut machinery = self.machinery_errors.lock().unwrap().clone();
         if evaluations == 0 {
             machinery.push("no case was evaluated".to_string());
         }
@@ -244,8 +342,8 @@ impl Run {
         let mut coverage = serde_json::Map::new();
         coverage.insert("evaluations".into(), json!(evaluations));
         coverage.insert("distinct_nontrivial".into(), json!(nontrivial));
-        coverage.insert("rule".into(), json!(self.rule.into_inner().unwrap()));
-        let mut samples = self.samples.into_inner().unwrap();
+        coverage.insert("rule".into(), json!(self.rule.lock().unwrap().clone()));
+        let mut samples = self.samples.lock().unwrap().clone();
         if samples.is_empty() {
             samples.push(json!("no sample recorded"));
         }
@@ -265,14 +363,14 @@ impl Run {
             "outcome_examples".into(),
             json!(outcomes.iter().take(12).cloned().collect::<Vec<_>>()),
         );
-        let caps = self.caps.into_inner().unwrap();
+        let caps = self.caps.lock().unwrap().clone();
         coverage.insert("exhaustive".into(), json!(*self.exhaustive.lock().unwrap() && caps.is_empty()));
         coverage.insert("caps_hit".into(), json!(caps));
         coverage.insert("violation_signatures".into(), json!(groups.keys().collect::<Vec<_>>()));
         coverage.insert("known_findings_observed".into(), json!(known_seen));
         coverage.insert("violating_cases".into(), json!(total));
-        for (k, v) in self.extra.into_inner().unwrap() {
-            coverage.insert(k, v);
+        for (k, v) in self.extra.lock().unwrap().iter() {
+            coverage.insert(k.clone(), v.clone());
         }
         let seed = std::env::var("VERIF_SEED").ok().and_then(|s| s.parse::<i64>().ok()).unwrap_or(0);
         let evidence = json!({
@@ -281,7 +379,7 @@ impl Run {
             "seed": seed,
             "level": self.level,
             "coverage": Value::Object(coverage),
-            "assumptions": self.assumptions.into_inner().unwrap(),
+            "assumptions": self.assumptions.lock().unwrap().clone(),
             "wall_s": self.start.elapsed().as_secs_f64(),
             "violations": new_violations,
         });
@@ -340,15 +438,14 @@ pub fn sanitize(signature: &str) -> String {
             out.push('_');
         }
     }
-    if out.len() > 120 {
-        let mut hash: u64 = 0xcbf29ce484222325;
-        for b in signature.bytes() {
-            hash ^= b as u64;
-            hash = hash.wrapping_mul(0x100000001b3);
-        }
-        out.truncate(100);
-        out.push_str(&format!("_{hash:016x}"));
+    // Distinct signatures must not share a file: append a short hash of the exact signature.
+    let mut hash: u64 = 0xcbf29ce484222325;
+    for b in signature.bytes() {
+        hash ^= b as u64;
+        hash = hash.wrapping_mul(0x100000001b3);
     }
+    out.truncate(90);
+    out.push_str(&format!("-{:08x}", hash as u32));
     out
 }
 
